@@ -124,6 +124,7 @@ def main():
             code = props.replay(ctx, args.replay)
             shutil.rmtree(ctx.wd, ignore_errors=True)
             sys.exit(code)
+        shutil.rmtree(os.path.join(VERIF, "replays", args.prop), ignore_errors=True)
         props.REGISTRY[args.prop](ctx)
         sys.exit(finish(ctx))
     except Machinery as ex:
